@@ -89,7 +89,23 @@ pub unsafe extern "C" fn clock_gettime(clk: libc::clockid_t, ts: *mut libc::time
 
 /// Simplest source: two settable clocks (realtime, and one value for every monotonic-like id).
 pub mod fixed {
-    use std::sync::atomic::{AtomicI64, Ordering};
+    use std::sync::atomic::{AtomicI64, AtomicU64, Ordering};
+
+    /// Clock ids of the reads served since the last `take_order()`, packed 4 bits each (id + 1),
+    /// oldest first; at most 16 are kept.
+    static ORDER: AtomicU64 = AtomicU64::new(0);
+
+    /// Returns the clock ids read since the previous call, oldest first.
+    pub fn take_order() -> Vec<i32> {
+        let mut v = ORDER.swap(0, Ordering::SeqCst);
+        let mut out = Vec::new();
+        while v != 0 {
+            out.push((v & 0xf) as i32 - 1);
+            v >>= 4;
+        }
+        out.reverse();
+        out
+    }
 
     pub static REAL_SEC: AtomicI64 = AtomicI64::new(0);
     pub static REAL_NSEC: AtomicI64 = AtomicI64::new(0);
@@ -105,6 +121,10 @@ pub mod fixed {
 
     pub fn install() {
         super::install(Box::new(|clk| {
+            let cur = ORDER.load(Ordering::SeqCst);
+            if cur >> 60 == 0 {
+                ORDER.store((cur << 4) | ((clk as u64 + 1) & 0xf), Ordering::SeqCst);
+            }
             if clk == libc::CLOCK_REALTIME || clk == libc::CLOCK_REALTIME_COARSE {
                 (REAL_SEC.load(Ordering::SeqCst), REAL_NSEC.load(Ordering::SeqCst))
             } else {
